@@ -25,6 +25,8 @@ pub mod pipeline_gen;
 mod kernels;
 #[path = "process_opana.rs"]
 mod opana;
+#[path = "process_argrec.rs"]
+mod argrec;
 
 use crate::allocmeter as meter;
 use crate::common::*;
@@ -140,6 +142,8 @@ pub enum Pipe {
     /// one thread with a `stack`-byte stack walked by CFI in `step`-byte frames (≈ stack/step frames),
     /// `symk` KiB of filler records in the symbol file: the memory-budget cases
     Big { seed: u64, cpu: String, stack: u64, step: u64, symk: u64, opt: u32 },
+    /// an x86 dump whose frames execute inside FUNCs with the given names (argument recovery)
+    ArgRec { case: argrec::ArgCase, opt: u32 },
 }
 
 fn kv<'a>(f: &'a str, key: &str) -> Option<&'a str> {
@@ -194,6 +198,22 @@ pub fn parse_pipe(f: &[&str]) -> Option<Pipe> {
                 stack: kv(f[4], "stack")?.parse().ok()?,
                 step: kv(f[5], "step")?.parse().ok()?,
                 symk: kv(f[6], "symk")?.parse().ok()?,
+                opt: kv(f[7], "opt")?.parse().ok()?,
+            })
+        }
+        "argrec" => {
+            if f.len() != 8 {
+                return None;
+            }
+            let names = kv(f[6], "names")?.split(',').map(unhex).collect::<Option<Vec<_>>>()?;
+            Some(Pipe::ArgRec {
+                case: argrec::ArgCase {
+                    seed: kv(f[2], "seed")?.parse().ok()?,
+                    step: kv(f[3], "step")?.parse().ok()?,
+                    stack: kv(f[4], "stack")?.parse().ok()?,
+                    espoff: kv(f[5], "espoff")?.parse().ok()?,
+                    names,
+                },
                 opt: kv(f[7], "opt")?.parse().ok()?,
             })
         }
@@ -267,6 +287,12 @@ fn materialise(p: &Pipe) -> Option<Materialised> {
                 format!("big-frames:{}", match fr { 0..=99 => "<100", 100..=999 => "100-999", 1000..=9999 => "1k-10k", _ => ">=10k" }),
                 format!("big-symk:{}", match symk { 0 => "0", 1..=255 => "<256K", _ => ">=256K" }),
             ];
+            Some(Materialised { dump, supplier: GenSupplier { syms, all: None, fallback: None, served: Default::default() }, evil: None, opt: *opt, tags })
+        }
+        Pipe::ArgRec { case, opt } => {
+            let (dump, syms) = argrec::build(case)?;
+            let longest = case.names.iter().map(|n| n.len()).max().unwrap_or(0);
+            let tags = vec!["kind:argrec".into(), "cpu:x86".into(), format!("argrec-name:{}", match longest { 0..=63 => "<64", 64..=1023 => "64-1023", _ => ">=1024" })];
             Some(Materialised { dump, supplier: GenSupplier { syms, all: None, fallback: None, served: Default::default() }, evil: None, opt: *opt, tags })
         }
         Pipe::Raw { dump, sym, opt } => Some(Materialised {
@@ -593,6 +619,16 @@ fn run_pipeline(m: Materialised, cs: Arc<CaseShared>) -> PipeResult {
     check_memory(&mut res, &mem, dump_len as u64, sym_bytes, frames_total, out_bytes);
     // ---- the kernels: inputs extracted from the dump / the state, answers from the state / the JSON
     res.kernel = catch(|| kernels::pipeline_kernels(&dump, &state, json_compact.as_deref(), text_full.as_deref(), &bounds)).unwrap_or(None);
+    // ---- argument recovery (x86 frames under option sets 2 and 3) against the model
+    if let Some((r2, a2)) = catch(|| argrec::argrec_kernel(&dump, &state, m.opt)).unwrap_or(None) {
+        if a2.contains('[') {
+            res.tags.push("argrec-compared".into());
+        }
+        res.kernel = Some(match res.kernel.take() {
+            Some((r, a)) => (format!("{r} // {r2}"), format!("{a} // {a2}")),
+            None => (format!("process kern {r2}"), a2),
+        });
+    }
     res
 }
 
@@ -835,6 +871,8 @@ impl Engine for Process {
         }
         // 4. kernel cases (model-compared)
         kernels::generate(tier, rng, emit);
+        // 4b. argument recovery: x86 frames with generated function names
+        argrec::generate(tier, rng, emit);
         // 5. the crashing-instruction analysis against the model (decoder sweep + random tails)
         opana::generate(tier, rng, emit);
     }
@@ -974,6 +1012,7 @@ fn describe(p: &Pipe) -> String {
         Pipe::Gen { seed, cpu, os, feat, opt, mutation } => render_gen(*seed, cpu, os, *feat, *opt, *mutation),
         Pipe::File { name, mutation, .. } => format!("file {name} mut:{}:{}", mutation.0, mutation.1),
         Pipe::Raw { .. } => "raw".into(),
+        Pipe::ArgRec { case, .. } => format!("argrec seed:{} ({} names)", case.seed, case.names.len()),
         Pipe::Big { seed, cpu, stack, step, symk, opt } => format!("process big seed:{seed} cpu:{cpu} stack:{stack} step:{step} symk:{symk} opt:{opt}"),
     }
 }
